@@ -299,6 +299,14 @@ class FortranEngine:
                 self.iterations[t] = iteration
                 solved[i] = False
 
+            # Period is out of bounds or lacks the lags/leads the equations need
+            elif error_code in (11, 12, 13, 14):
+                raise IndexError(
+                    f'Unable to solve period at position `t` ({t}): '
+                    f'the model has {self.lags} lag(s) and {self.leads} lead(s) '
+                    f'but the span has {len(self.span)} period(s)'
+                )
+
             # Any uncaught errors
             else:
                 raise FortranEngineError(
@@ -374,6 +382,20 @@ class FortranEngine:
             raise ValueError(
                 f'Value of `min_iter` ({min_iter}) '
                 f'cannot exceed value of `max_iter` ({max_iter})'
+            )
+
+        # Error if the period cannot accommodate the model's lags or leads, as
+        # in the Python version (and before any values are copied with
+        # `offset`)
+        t_position = t
+        if t_position < 0:
+            t_position += len(self.span)
+
+        if t_position - self.lags < 0 or t_position + self.leads >= len(self.span):
+            raise IndexError(
+                f'Unable to solve period at position `t` ({t}): '
+                f'the model has {self.lags} lag(s) and {self.leads} lead(s) '
+                f'but the span has {len(self.span)} period(s)'
             )
 
         if errors not in self._ERROR_OPTIONS:
@@ -453,6 +475,14 @@ class FortranEngine:
 
         elif error_code == 22 and errors == 'skip':
             status = SolutionStatus.SKIPPED.value
+
+        # Period is out of bounds or lacks the lags/leads the equations need
+        elif error_code in (11, 12, 13, 14):
+            raise IndexError(
+                f'Unable to solve period at position `t` ({t}): '
+                f'the model has {self.lags} lag(s) and {self.leads} lead(s) '
+                f'but the span has {len(self.span)} period(s)'
+            )
 
         else:
             raise FortranEngineError(
